@@ -310,11 +310,30 @@ class ClosureTranslator(object):
         env = {}
         body = [s for s in fn.body if not (isinstance(s, ast.Expr) and isinstance(s.value, ast.Constant))]
         rname = fn.args.args[0].arg
+        self.last_guards = []
         for st in body:
             if isinstance(st, ast.Assign) and len(st.targets) == 1 and isinstance(st.targets[0], ast.Name):
                 env[st.targets[0].id] = self.expr(st.value, env, rname)
             elif isinstance(st, ast.Return):
                 return self.expr(st.value, env, rname)
+            elif isinstance(st, ast.If) and not st.orelse and st.body and isinstance(st.body[-1], ast.Return):
+                # `if x == 0 and y == 0: [local assignments;] return <expression>` before the general formula: the formula term is what is translated; each guard is
+                # emitted beside it as (the terms tested against zero, the term returned) - the theorems about the guards say that the value returned is the
+                # derivative at the points the guard selects (where the general expression divides by zero)
+                tests = st.test.values if isinstance(st.test, ast.BoolOp) and isinstance(st.test.op, ast.And) else [st.test]
+                conds = []
+                for t in tests:
+                    ok = isinstance(t, ast.Compare) and len(t.ops) == 1 and isinstance(t.ops[0], ast.Eq) and isinstance(t.left, ast.Name) and t.left.id in env \
+                        and isinstance(t.comparators[0], ast.Constant) and t.comparators[0].value == 0
+                    if not ok:
+                        raise Untranslatable("guard %s" % (ast.get_source_segment(self.src, st.test) or "")[:40])
+                    conds.append(env[t.left.id])
+                genv = dict(env)
+                for g in st.body[:-1]:
+                    if not (isinstance(g, ast.Assign) and len(g.targets) == 1 and isinstance(g.targets[0], ast.Name)):
+                        raise Untranslatable("statement %s inside a guard" % type(g).__name__)
+                    genv[g.targets[0].id] = self.expr(g.value, genv, rname)
+                self.last_guards.append((conds, self.expr(st.body[-1].value, genv, rname)))
             else:
                 raise Untranslatable("statement %s" % type(st).__name__)
         raise Untranslatable("no return")
@@ -377,12 +396,18 @@ def gen_combinators(repo, outdir, summary):
                 try:
                     if cname not in cl:
                         raise Untranslatable("closure %s missing" % cname)
+                    ct.last_guards = []
                     term = ct.closure(cl[cname])
                     res["%s.%s" % (node.name, cname)] = True
                 except Untranslatable as e:
                     term = ("bad",)
+                    ct.last_guards = []
                     res["%s.%s" % (node.name, cname)] = str(e)
                 out.append("def %s_%s : E := %s" % (node.name, cname, lean(term)))
+                if ct.last_guards:
+                    out.append("/-- guards `if x == 0 and ...: return <value>` placed before the general expression of `%s.%s`: (the terms tested against zero, the term returned) -/" % (node.name, cname))
+                    out.append("def %s_%s_guards : List (List E × E) := [%s]" % (node.name, cname, ", ".join(
+                        "([%s], %s)" % (", ".join(lean(c) for c in conds), lean(v)) for conds, v in ct.last_guards)))
             out.append("")
     # num_deriv from _util.py
     upath = os.path.join(repo, "atsim/potentials/_util.py")
